@@ -87,9 +87,17 @@ def build(P, payload):
     lines = [("  " * s.depth) + s.src() for s in P.stmts]
     n = len(lines)
     mode = payload["mode"]
+    # an unresolved include directly in front of a labelled DO sits where the labelled-DO look-ahead collects and
+    # restores items: aimed at in a third of the 'absent' cases
+    targets = [i for i, st in enumerate(P.stmts) if st.kind == "label_do" and i >= 2] if mode == "absent" else []
+    aim = bool(targets) and r.random() < 0.35
     for _ in range(60):
-        a = r.randrange(0, n - 1)
-        b = r.randrange(a + 1, min(n, a + 30) + 1)
+        if aim:
+            b = r.choice(targets)
+            a = r.randrange(max(1, b - 6), b)
+        else:
+            a = r.randrange(0, n - 1)
+            b = r.randrange(a + 1, min(n, a + 30) + 1)
         if mode == "absent" and not balanced(P, a, b):
             continue
         if mode == "absent" and (a == 0 and b == n):
